@@ -33,14 +33,16 @@ class C07(Prop):
             "and f32: bit-for-bit against the Flocq model (West's recurrence, shifted raw moments by powi, binomial "
             "coefficients, Horner) under ndarray's summation plan; ddof in {0, 1/2, 1}; non-uniform, zero and (for the K3 "
             "witness) negative weights; data with large mean relative to spread; lengths 1..40 (quick) / 1..200; 1-3-D, "
-            "every axis, mixed layouts. Independent oracle: exact rational arithmetic with an ASSUMED forward-error bound "
-            "(64 n u x condition term; see level_note), orders 0 and 1 exact, variance >= 0 for non-negative weights. "
+            "every axis, mixed layouts. Independent oracle: exact rational arithmetic with the forward-error bound 64 n u x the "
+            "condition terms of the proved theorems (Props/C07_f64_west_error.v, Props/C07_f64_moments_error.v; the constant "
+            "64 n is the oracle's own, smaller than the proved ones), orders 0 and 1 exact, variance >= 0 for non-negative "
+            "weights. "
             "Non-trivial: >= 2 elements.")
     correspondences = {r: "corr:C07/%s/bits" % r for r in list(STAT1) + list(STAT2) + list(AXIS)}
     trusted_base = ["ndarray sum / mapv / map / map_axis (summation plan mirrored in vplib/plans.py)",
                     "compiler-rt powi = square and multiply (Num/Kernels.v powi); checked bit for bit by this run",
                     "Flocq binary64/binary32 under vm_compute = the hardware's IEEE arithmetic"]
-    assumptions = ["forward-error bound of West's recurrence and of the shifted-moment scheme is ASSUMED (64 n u x sum of absolute terms), not proved; the exact-arithmetic refinement (Num/KernelsR.v) and the bit-exact tie are what is proved/checked",
+    assumptions = ["binary64 forward-error bounds of West's recurrence and of the central moments / kurtosis / skewness are PROVED for the model (explicit constants, Props/C07_f64_*_error.v); the oracle applies the same condition terms with its own constant 64 n (binary32: the same expression with binary32 constants, analogue, not proved)",
                    "known-finding class K3: a non-empty prefix of the weights ending in a non-zero weight sums to zero"]
 
     def gen(self, tier, rng):
@@ -258,7 +260,7 @@ class C07(Prop):
                 + aw * (scale * fp.u * 16) ** 2 * n)
         bound = 64 * (n + 2) * fp.u * cond / abs(sw - Fraction(ddof)) * (3 if is_std else 1) + Fraction(1, 2 ** (120 if et == "f32" else 900))
         if abs(gv - exact) > bound:
-            return ["value: weighted %s = %r, definition gives %r (|err| %.3e > assumed bound %.3e)" % (
+            return ["value: weighted %s = %r, definition gives %r (|err| %.3e > bound %.3e)" % (
                 "std^2" if is_std else "var", float(gv), float(exact), float(abs(gv - exact)), float(bound))]
         return []
 
